@@ -1,3 +1,197 @@
-From Coq Require Import List ZArith Bool QArith.
+(* C20 — isophote fitting: property theorems about the model of C20_Model.v.
+   Each theorem is closed by [exact] of a lemma of C20_Proofs.
+
+   What is proved, about what:
+   (A) EllipseGeometry._to_polar_scalar and _to_polar_vectorized (geometry.py:446-500), both
+       modelled statement by statement over an ABSTRACT record of numeric operations, return
+       the same (radius, angle) for every geometry and every array of points.
+   (B) the control skeleton of Ellipse.fit_image (ellipse.py:386-510, with the inward loop
+       REPAIRED by fixes/C20-1), driven by an arbitrary stream of fit outcomes standing for
+       EllipseFitter.fit: whenever it returns, the list is empty or strictly increasing in
+       sma, contains sma0, contains sma 0 iff minsma = 0, and every sma lies in
+       [minsma, maxsma].  Numbers are exact rationals.  Partial correctness: the real
+       loops need not terminate for adversarial streams, hence the fuel.
+   (C) the harmonic selected by EllipseFitter.fit (fitter.py:181-187) is never one of a fixed
+       parameter, and fixed parameters survive the whole iteration of the fitter model.
+   NOT proved (numerics of an iterative least-squares fitter; tested only, see harness):
+   recovery of centre/eps/PA/intensity within the reported errors, build_ellipse_model
+   reproducing the image. *)
+From Coq Require Import List ZArith Bool QArith Sorted.
 From PV Require Import lib.Cases C20_Model C20_Proofs.
 Import ListNotations.
+Local Open Scope Q_scope.
+
+(* ------------------------------------------------------------------ *)
+(* (A) scalar / array twins of the coordinate transform                *)
+(* ------------------------------------------------------------------ *)
+(* [ops]: any carrier with +,-,*,/, sqrt, asin, abs, <, <= and constants 0,1,2,pi; the only
+   hypothesis is that  0 <= a  and  a < 0  never both hold (true of the reals, of Q, and of
+   IEEE doubles including NaN).  Nothing is assumed about sqrt/asin: both twins must call the
+   same ones (math.asin vs numpy.arcsin is outside the theorem, see the harness). *)
+Theorem to_polar_twins_agree :
+  forall (A : Type) (padd psub pmul pdiv : A -> A -> A) (psqrt pasin pabs : A -> A)
+         (pltb pleb : A -> A -> bool) (c0 c1 c2 pi : A),
+  (forall a, pleb c0 a = true -> pltb a c0 = false) ->
+  forall (x0 y0 pa : A) (xs ys : list A), length xs = length ys ->
+  to_polar_vec padd psub pmul pdiv psqrt pasin pabs pltb pleb c0 c1 c2 pi x0 y0 pa xs ys =
+  (map fst (map2 (to_polar_scalar padd psub pmul pdiv psqrt pasin pabs pltb pleb c0 c1 c2 pi x0 y0 pa) xs ys),
+   map snd (map2 (to_polar_scalar padd psub pmul pdiv psqrt pasin pabs pltb pleb c0 c1 c2 pi x0 y0 pa) xs ys)).
+Proof. exact @twins_agree. Qed.
+Print Assumptions to_polar_twins_agree.
+
+(* the order hypothesis is satisfiable (integers; sqrt/asin are arbitrary functions here) *)
+Example twins_hypothesis_satisfiable : forall a : Z, Z.leb 0 a = true -> Z.ltb a 0 = false.
+Proof. intros a H. apply Z.ltb_ge. apply Z.leb_le. exact H. Qed.
+Example twins_instance :
+  to_polar_vec Z.add Z.sub Z.mul Z.div Z.sqrt (fun a => a) Z.abs Z.ltb Z.leb 0%Z 1%Z 2%Z 3%Z
+               5%Z 5%Z (-1)%Z [5; 8; 1; 9]%Z [5; 9; 9; 1]%Z
+  = ([0; 5; 5; 5]%Z, [2; 1; 4; 1]%Z).   (* toy integer operations, asin := identity *)
+Proof. vm_compute. reflexivity. Qed.
+
+(* ------------------------------------------------------------------ *)
+(* (B) the sma schedule of fit_image                                   *)
+(* ------------------------------------------------------------------ *)
+(* growth steps (geometry.py:502-553) *)
+Theorem growth_step_increases : forall lin sma step,
+  0 < step -> 0 < sma -> sma < update_sma Qnum lin sma step.
+Proof. exact update_sma_increases. Qed.
+Print Assumptions growth_step_increases.
+
+Theorem growth_step_monotone : forall lin a b step,
+  0 < step -> a < b -> update_sma Qnum lin a step < update_sma Qnum lin b step.
+Proof. exact update_sma_monotone. Qed.
+Print Assumptions growth_step_monotone.
+
+(* reset_sma: the first inward sma is below the start, every inward step shrinks a positive
+   sma, and growing the reset sma by one outward step gives the start back *)
+Theorem inward_step_decreases : forall lin a step sin istep,
+  0 < step -> reset_sma Qnum lin a step = (sin, istep) ->
+  (0 < a -> sin < a) /\ (forall x, 0 < x -> update_sma Qnum lin x istep < x).
+Proof. exact reset_sma_spec. Qed.
+Print Assumptions inward_step_decreases.
+
+Theorem reset_inverts_growth : forall lin a step sin istep,
+  0 < step -> reset_sma Qnum lin a step = (sin, istep) -> update_sma Qnum lin sin step == a.
+Proof. exact reset_sma_inverse. Qed.
+Print Assumptions reset_inverts_growth.
+
+(* [stream_ok s]: an invalid fit outcome has stop code 3 (true of every return statement of
+   EllipseFitter.fit; proved of the fitter model below: fit_invalid_only_code3).
+   [eff_sma0]: the sma the first fit is made at (sma0 argument, else geometry.sma). *)
+Theorem sma_schedule :
+  forall lin step minsma maxsma maxrit fuel sma0arg gsma fix_all s l calls,
+  let a0 := eff_sma0 sma0arg gsma in
+  0 < step -> 0 < a0 -> minsma <= a0 -> (forall m, maxsma = Some m -> a0 <= m) -> stream_ok s ->
+  fit_image Qnum lin step minsma maxsma maxrit true fuel sma0arg gsma fix_all s = (Ret Qnum l, calls) ->
+  l = [] \/
+  (StronglySorted (fun a b => i_sma Qnum a < i_sma Qnum b) l /\
+   (exists i, In i l /\ i_sma Qnum i = a0) /\
+   ((exists i, In i l /\ i_sma Qnum i == 0) <-> minsma == 0) /\
+   (forall i, In i l ->
+      minsma <= i_sma Qnum i /\
+      (forall m, maxsma = Some m -> i_sma Qnum i < m \/ i_sma Qnum i == a0) /\
+      (i_sma Qnum i == 0 \/ 1 # 2 < i_sma Qnum i \/ a0 <= i_sma Qnum i))).
+Proof. exact sma_schedule_proof. Qed.
+Print Assumptions sma_schedule.
+
+(* the same without the range premises: every returned sma is sma0, or an outward one
+   (above sma0, below a truthy maxsma), or an inward one (above max(minsma, 1/2), below
+   sma0), or the central one (0, only when minsma = 0) *)
+Theorem sma_schedule_classes :
+  forall lin step minsma maxsma maxrit fuel sma0arg gsma fix_all s l calls,
+  0 < step -> 0 < eff_sma0 sma0arg gsma -> stream_ok s ->
+  fit_image Qnum lin step minsma maxsma maxrit true fuel sma0arg gsma fix_all s = (Ret Qnum l, calls) ->
+  l = [] \/ Good minsma maxsma (eff_sma0 sma0arg gsma) l.
+Proof. exact sma_schedule_classes_proof. Qed.
+Print Assumptions sma_schedule_classes.
+
+(* the loop of the unrepaired snapshot (top_test = false) violates the lower bound:
+   sma0 = 10, minsma = 9.5, step = 0.1, maxsma = 11 returns an isophote at 100/11 < 9.5 *)
+Theorem sma_lower_bound_refuted_unrepaired :
+  exists l calls,
+    fit_image Qnum false (1 # 10) (19 # 2) (Some 11) None false 50 (Some 10) 10 false
+              [(0%Z, true); (0%Z, true); (0%Z, true)] = (Ret Qnum l, calls) /\
+    exists i, In i l /\ i_sma Qnum i < 19 # 2.
+Proof. exact sma_lower_bound_refuted_unrepaired_proof. Qed.
+Print Assumptions sma_lower_bound_refuted_unrepaired.
+
+(* premises are satisfiable, and the conclusion is not vacuous: geometric growth from 4 with
+   maxsma 6, minsma 0: a failed outward fit (-1) is repaired to code 5, an invalid one (3) is
+   retried, the inward loop runs down to 1/2 < sma and the central isophote is added *)
+Example stream_ok_example : stream_ok [(0, true); (3, false); (-1, true); (2, true)]%Z.
+Proof.
+  intros c v H Hv. simpl in H.
+  repeat (destruct H as [H|H]; [inversion H; subst; try discriminate; reflexivity|]). destruct H.
+Qed.
+Example sma_schedule_example :
+  match fst (fit_image Qnum false (1 # 2) 0 (Some 7) None true 50 (Some 4) 10 false
+         [(0, true); (3, false); (-1, true); (0, true); (0, true); (0, true); (0, true); (0, true); (0, true)]%Z)
+  with Ret _ l => map (fun i => (Qred (i_sma Qnum i), i_code Qnum i)) l | _ => [] end
+  = [(0, 0%Z); (128 # 243, 0%Z); (64 # 81, 0%Z); (32 # 27, 0%Z); (16 # 9, 0%Z); (8 # 3, 0%Z);
+     (4, 0%Z); (6, 5%Z)].
+Proof. vm_compute. reflexivity. Qed.
+(* the same input through the repaired loop of the refutation: nothing below minsma *)
+Example repaired_loop_on_refutation_input :
+  match fst (fit_image Qnum false (1 # 10) (19 # 2) (Some 11) None true 50 (Some 10) 10 false
+         [(0%Z, true); (0%Z, true); (0%Z, true)])
+  with Ret _ l => map (fun i => Qred (i_sma Qnum i)) l | _ => [] end = [10].
+Proof. vm_compute. reflexivity. Qed.
+
+(* ------------------------------------------------------------------ *)
+(* (C) fixed parameters in EllipseFitter.fit                           *)
+(* ------------------------------------------------------------------ *)
+(* np.argmax(np.abs(np.ma.masked_array(coeffs[1:], mask=fix))): as long as one harmonic is
+   free, the index is free, its amplitude is the largest free one, and it is the first such *)
+Theorem fixed_params_never_corrected :
+  forall (coeffs : list Q) (mask : list bool),
+  (exists j c, nth_error mask j = Some false /\ nth_error coeffs j = Some c) ->
+  let k := argmax_masked Qnum coeffs mask in
+  nth_error mask k = Some false /\
+  exists c, nth_error coeffs k = Some c /\
+    (forall j cj, nth_error mask j = Some false -> nth_error coeffs j = Some cj ->
+                  nabs Qnum cj <= nabs Qnum c) /\
+    (forall j cj, (j < k)%nat -> nth_error mask j = Some false -> nth_error coeffs j = Some cj ->
+                  nabs Qnum cj < nabs Qnum c).
+Proof. exact argmax_masked_spec. Qed.
+Print Assumptions fixed_params_never_corrected.
+
+(* one corrector step leaves every fixed parameter untouched (fix = [fc, fc, fpa, feps],
+   not everything fixed: fit_image returns before fitting otherwise) *)
+Theorem corrector_keeps_fixed_params :
+  forall (max_eps : Q) (fc fpa feps : bool), fc && fpa && feps = false ->
+  forall g o, length (o_coeffs Qnum o) = 4%nat ->
+  keeps fc fpa feps g (correct Qnum max_eps (argmax_masked Qnum (o_coeffs Qnum o) (fix_mask fc fpa feps)) g o).
+Proof. exact correct_keeps. Qed.
+Print Assumptions corrector_keeps_fixed_params.
+
+(* the whole iteration: the geometry of the returned isophote keeps a fixed centre exactly,
+   a fixed eps exactly (for a start eps > 0), and a fixed PA exactly provided no corrected
+   geometry had eps < 0 (then _check_conditions swaps the axes: PA +- pi/2; automatically
+   excluded when eps is fixed too).  [snd r] is the trace of corrected geometries. *)
+Theorem fixed_params_kept_partial :
+  forall max_eps min_eps pi2 fc fpa feps inw minit os g,
+  fc && fpa && feps = false ->
+  Forall (fun o => length (o_coeffs Qnum o) = 4%nat) os ->
+  (feps = true -> 0 < g_eps Qnum g) ->
+  let r := fit Qnum max_eps min_eps pi2 fc fpa feps inw minit os g in
+  (fpa = true -> feps = false -> forall gc, In gc (snd r) -> 0 <= g_eps Qnum gc) ->
+  keeps fc fpa feps g (snd (fst r)).
+Proof. exact fixed_params_kept_proof. Qed.
+Print Assumptions fixed_params_kept_partial.
+
+(* the premise [stream_ok] of the schedule theorem holds of the fitter model *)
+Theorem fit_invalid_only_code3 :
+  forall max_eps min_eps pi2 fc fpa feps inw minit os g,
+  let r := fst (fit Qnum max_eps min_eps pi2 fc fpa feps inw minit os g) in
+  snd (fst r) = false -> fst (fst r) = 3%Z.
+Proof. exact fit_invalid_only_code3_proof. Qed.
+Print Assumptions fit_invalid_only_code3.
+
+(* premises satisfiable / concrete run of the fitter model: fixed centre, the largest
+   harmonic (index 0, a centre harmonic) is masked, the PA corrector (index 2) is used *)
+Example fitter_example :
+  let o := mkobs Qnum false false [9; -7; 5; 3] false false false 100 100 (1 # 2) (1 # 10) true false false in
+  argmax_masked Qnum (o_coeffs Qnum o) (fix_mask true false false) = 2%nat /\
+  let r := fit Qnum (95 # 100) (5 # 100) (157 # 100) true false false false 10 [o; o] (mkgeom Qnum 20 30 1 (2 # 10)) in
+  fst (fst (fst r)) = 2%Z /\ g_x0 Qnum (snd (fst r)) = 20 /\ g_y0 Qnum (snd (fst r)) = 30.
+Proof. vm_compute. repeat split; reflexivity. Qed.
